@@ -113,6 +113,7 @@ type fnCtx struct {
 	flags   map[string]string
 	fired   map[int]bool
 	sweepOnly bool
+	autoInvs map[int][]Clause
 	modWhole map[string]bool
 	modPrecise map[string][]string
 	anchorLines map[int][]int
@@ -628,7 +629,7 @@ func (c *fnCtx) assumeWFB(st *State, v SymVal, bound string) {
 			facts = append(facts, app("=", app("=", app("itag", v.S), "0"), app("=", v.S, "nilI")))
 			facts = append(facts, sImp(sNot(sEq(app("iref", v.S), "nil")), app("=", app("rtype", app("iref", v.S)), app("itag", v.S))))
 		case KStr:
-			facts = append(facts, app("<=", "0", app("slen", v.S)))
+			facts = append(facts, app("<=", "0", app("slen", v.S)), app("<=", app("slen", v.S), "281474976710656"))
 		case KStruct, KTuple:
 			for _, f := range v.Fs {
 				walk(f)
